@@ -314,7 +314,10 @@ class Match:
 
 
 class Matcher:
-    def __init__(self, pattern, flags=0):
+    def __init__(self, pattern, flags=0, module=re):
+        # `module`: the engine whose verdict on single characters defines the class tables (\\w, \\s, \\d and
+        # case folding differ between `re` and `regex` on a few hundred code points)
+        self.module = module
         if isinstance(pattern, str):
             pattern, self.back = rename_duplicate_groups(pattern)
         else:
@@ -328,13 +331,13 @@ class Matcher:
 
     def test(self, op, av, c):
         if op == sc.LITERAL:
-            return char_in(c, rex.literal_ranges(av, self.flags) if self.flags & re.I else [(av, av)])
+            return char_in(c, rex.table(re.escape(chr(av)), re.I, module=self.module) if self.flags & re.I else [(av, av)])
         if op == sc.NOT_LITERAL:
-            return not char_in(c, rex.literal_ranges(av, self.flags) if self.flags & re.I else [(av, av)])
+            return not char_in(c, rex.table(re.escape(chr(av)), re.I, module=self.module) if self.flags & re.I else [(av, av)])
         if op == sc.ANY:
             return True if self.flags & re.S else not char_in(c, [(10, 10)])
         if op == sc.IN:
-            return char_in(c, class_ranges_full(av, self.flags))
+            return char_in(c, class_ranges_full(av, self.flags, self.module))
         raise NotEncodable(f"regex node {op}")
 
     def m(self, seq, i, s, pos, groups, k):
@@ -400,7 +403,7 @@ class Matcher:
             elif av == sc.AT_END_STRING:
                 ok = pos == len(s)
             elif av in (sc.AT_BOUNDARY, sc.AT_NON_BOUNDARY):
-                w = rex.table(r"\w", 0)
+                w = rex.table(r"\w", 0, module=self.module)
                 a = pos > 0 and char_in(s.chars[pos - 1], w)
                 b = pos < len(s) and char_in(s.chars[pos], w)
                 ok = (a != b) if av == sc.AT_BOUNDARY else (a == b)
@@ -481,7 +484,7 @@ class _FakePat:
         self.groupindex = dict(m.names)
 
 
-def class_ranges_full(av, flags):
+def class_ranges_full(av, flags, module=re):
     """like rex.class_ranges but over all code points (the sentinels are ordinary characters here)."""
     ci = flags & re.I
     simple = not ci and all(op in (sc.NEGATE, sc.LITERAL, sc.RANGE) for op, _ in av)
@@ -497,7 +500,7 @@ def class_ranges_full(av, flags):
                 rs.append(tuple(a))
         rs = rex.norm(rs)
         return rex.compl(rs, sentinels=False) if neg else rs
-    return rex.table(rex.cls_src(av), ci)
+    return rex.table(rex.cls_src(av), ci, module=module)
 
 
 # ---------------------------------------------------------------- interpreter hooks
@@ -519,13 +522,13 @@ def install(it):
                     return native(pattern, *a, **kw)
                 if len(a) > 2 or any(k not in ("flags",) for k in kw):
                     raise NotEncodable("re.sub with count")
-                return Matcher(pattern, flags).sub(repl, s)
+                return Matcher(pattern, flags, module=mod).sub(repl, s)
             s = a[0]
             if len(a) > 1:
                 flags = a[1]
             if not has_c(s):
                 return native(pattern, *a, **kw)
-            M_ = Matcher(pattern, flags)
+            M_ = Matcher(pattern, flags, module=mod)
             return getattr(M_, name)(s)
 
         return f
@@ -540,7 +543,7 @@ def install(it):
         subj = args[1] if name == "sub" else args[0]
         if not isinstance(subj, CStr) or len(args) > (2 if name == "sub" else 1):
             raise NotEncodable(f"compiled pattern .{name} on {type(subj).__name__}")
-        M_ = Matcher(pat.pattern, pat.flags)
+        M_ = Matcher(pat.pattern, pat.flags, module=rx if type(pat).__module__.startswith("_regex") or type(pat).__module__.startswith("regex") else re)
         return M_.sub(args[0], subj) if name == "sub" else getattr(M_, name)(subj)
 
     it.pattern_hook = pattern_hook
